@@ -248,7 +248,14 @@ def case_history(case):
                 k = counts.get(name, 0)
                 before = set(p.name for p in results_dir.iterdir()) if results_dir.exists() else set()
                 try:
-                    project.optimize("m", "p", result_name=name, maximum_number_function_evaluations=1)
+                    if case.get("by_model_name"):
+                        # the result name is left to its default: the name of the model
+                        mf = project.folder / "models" / f"{name}.yml"
+                        if not mf.exists():
+                            shutil.copy(project.folder / "models" / "m.yml", mf)
+                        project.optimize(name, "p", maximum_number_function_evaluations=1)
+                    else:
+                        project.optimize("m", "p", result_name=name, maximum_number_function_evaluations=1)
                 except Exception as e:  # noqa: BLE001
                     vs.append(V("project-optimize-raised", history=hist[: step + 1], name=name, exc=repr(e)[:200]))
                     break
@@ -418,6 +425,12 @@ def run(run: core.Run):
     for stray in ("a_run_zzzz", "a_run_0003.bak", "notes"):
         for h in (["a"], ["a", "a"], ["a_run_b", "a"]):
             hists.append({"history": h, "stray": stray})
+    # the same histories with the result name left to its default (the model's name; model files named after the names)
+    for n in range(1, 3):
+        for h in itertools.product(names, repeat=n):
+            hists.append({"history": list(h), "by_model_name": True})
+    for h in (["a", "a.b", "a"], ["a.b", "a", "a.b"], ["ab", "a", "ab"]):
+        hists.append({"history": h, "by_model_name": True})
     run.map("history", hists, chunksize=4)
     finals = {tuple(p["final"]) for _, p in run.payloads.get("history", [])}
     run.states += len(finals)
